@@ -183,8 +183,8 @@ impl CompactAsSubject for CA {
 
 pub fn registry() -> Vec<VT> {
 	vec![
-		VT::base::<Pt>("Pt", "derived", true).mel::<Pt>().mem::<Pt>(),
-		VT::base::<CA>("CA", "derived", true).mel::<CA>().mem::<CA>(),
-		VT::base::<CompactOf<CA>>("Compact<CA>", "derived", true).mem::<CompactOf<CA>>(),
+		crate::vt!(Pt, "Pt", "derived", true),
+		crate::vt!(CA, "CA", "derived", true),
+		crate::vt!(CompactOf<CA>, "Compact<CA>", "derived", true),
 	]
 }
